@@ -226,6 +226,9 @@ func (an *Analysis) txCompute(fr *txFrame, v ssa.Value) (constant.Value, error) 
 			}
 			return constant.MakeBool(present), nil
 		}
+		if cm.set {
+			break // an empty-struct value carries nothing; only the membership result is meaningful
+		}
 		if !present {
 			val = cm.zero
 		}
